@@ -29,20 +29,48 @@ PROBES = [
     "set-empty-absent",
     "batch-committed",
     "snapshot-read",
+    "operation-ended-by-storage-failure",
 ]
-FAULTS = ["batch-abort", "batch-abort-base", "crash-reopen", "restart-regenerated-counts"]
+FAULTS = ["batch-abort", "batch-abort-base", "crash-reopen", "restart-regenerated-counts", "write-fail-applied", "write-fail-not-applied"]
 COMPONENTS = {
     "real": ["trie.hexary.HexaryTrie get/exists/__getitem__/__contains__/set/delete/__setitem__/__delitem__", "squash_changes", "at_root", "trie.utils.db.ScratchDB"],
     "stub": ["SimDB mapping (the disk)", "writer / reader / batch / operator client actors"],
     "model": ["dict[bytes, bytes]", "RefMPT only to classify where a lookup ends (probes)"],
 }
-ASSUMPTIONS = ["storage is fault-free in this check (C01 speaks of a complete database); faults are C04/C05/C07"]
+ASSUMPTIONS = ["node bodies are never missing in this check (C01 speaks of a complete database); some runs end direct operations by a failing write (any exception family) to see that the handle stays a map and stays usable"]
 
 
 class World(HWorld):
     def __init__(self, cfg, st):
         super().__init__(cfg, st, oracles=("map",))
         self.roots = []
+        self._before = None
+
+    def pre_mutation(self, h, cmd, trie):
+        self._before = trie.root_hash
+
+    def mutation_raised(self, h, cmd, exc):
+        """A storage failure (of any exception family, also an interruption) ended the
+        call.  C01 then asks: whatever root the handle holds, it still is a map — the
+        call either took effect or it did not — and later calls are served."""
+        if not self.fired:
+            return super().mutation_raised(h, cmd, exc)
+        from ..models.mpt import RefMPT
+
+        trie, model = self.target(h, cmd)
+        k = bytes(unhx(cmd["k"]))
+        after = dict(model)
+        if cmd["op"] == "set" and cmd.get("v"):
+            after[k] = unhx(cmd["v"])
+        else:
+            after.pop(k, None)
+        if trie.root_hash != self._before:
+            if trie.root_hash != RefMPT(after).root_hash:
+                self.viol("lookup-mismatch", f"after a failed {cmd['op']} the handle holds a root that stands neither for the contents before nor after the call")
+            model.clear()
+            model.update(after)
+        self.st.probe("operation-ended-by-storage-failure")
+        return "failed:" + type(exc).__name__
 
     def after(self, h, cmd, outcome):
         if self.changed and not h.prune and h.bgen is None:
@@ -89,7 +117,7 @@ class World(HWorld):
 
 
 def generate(rng):
-    pool = make_pool(rng, style="comb" if rng.random() < 0.01 else None)
+    pool = make_pool(rng, style=("comb" if rng.random() < 0.5 else "huge") if rng.random() < 0.02 else None)
     values = make_values(rng)
     probes = probe_keys(rng, pool)
     prune = rng.random() < 0.5
@@ -103,8 +131,13 @@ def generate(rng):
         for _ in range(n):
             pos = rng.randrange(len(cmds) + 1)
             cmds.insert(pos, {"op": "snapread", "root": rng.randrange(64), "k": hx(rng.choice(probes))})
+    # storage failures on direct operations (not inside batches: those never touch the store)
+    if rng.random() < 0.3:
+        for c in cmds:
+            if c["op"] in ("set", "del", "sete") and c.get("on") == "live" and rng.random() < 0.1:
+                c["fw"] = [rng.randint(1, 5), rng.randrange(2), rng.choice("EKOB")]
     cmds.append({"op": "readback"})
-    return {"prop": ID, "cfg": {"prune": prune, "cache": cache, "rc": rng.choice(["defaultdict", "defaultdict", "counter"]), "probe": [hx(k) for k in probes]}, "cmds": cmds}
+    return {"prop": ID, "cfg": {"prune": prune, "cache": cache, "rc": rng.choice(["defaultdict", "defaultdict", "counter"]), "store": rng.choice(["min", "min", "dict"]), "probe": [hx(k) for k in probes]}, "cmds": cmds}
 
 
 def execute(case, st):
